@@ -539,6 +539,7 @@ impl DeconstructedPat {
             | Type::Void
             | Type::Poly(..)
             | Type::InterfaceOutput(..)
+            | Type::Never
             | Type::Function(..) => vec![],
             Type::Tuple(tys) => tys.clone(),
             Type::Nominal(Nominal::Struct(struct_def), args)
@@ -561,7 +562,6 @@ impl DeconstructedPat {
                 }
                 _ => panic!("unexpected constructor"),
             },
-            Type::Never => unreachable!(),
         }
     }
 
@@ -1105,8 +1105,8 @@ fn ctors_for_ty(ty: &Type) -> ConstructorSet {
         Type::Void => ConstructorSet::Product,
         Type::Int | Type::Float | Type::String | Type::Function(..) => ConstructorSet::Unlistable,
         Type::Poly(..) => ConstructorSet::Unlistable,
-
-        Type::Never => unreachable!(),
-        Type::InterfaceOutput(..) => unreachable!(),
+        // nothing is known about the values of these types (a `never` scrutinee has none),
+        // so only a wildcard or binding can cover them
+        Type::Never | Type::InterfaceOutput(..) => ConstructorSet::Unlistable,
     }
 }
